@@ -200,7 +200,8 @@ uint64_t vf_trace_signature(void) { return T_trace_sig; }
 /* ======================================================================= tuning: the harness's sp_ienv */
 static __thread int T_ienv[8] = { 0, 20, 10, 200, 200, 100, 30, 10 };
 void vf_ienv_set(int i, int v) { if (i >= 1 && i <= 7) T_ienv[i] = v; }
-void vf_ienv_default(void) { static const int d[8] = { 0, 20, 10, 200, 200, 100, 30, 10 }; memcpy(T_ienv, d, sizeof d); }
+extern int slu_library_sp_ienv(int);      /* SRC/sp_ienv.c compiled under this name: the library's own default tuning */
+void vf_ienv_default(void) { T_ienv[0] = 0; for (int i = 1; i <= 7; i++) T_ienv[i] = slu_library_sp_ienv(i); }
 int  vf_ienv_get(int i) { return (i >= 1 && i <= 7) ? T_ienv[i] : -1; }
 int sp_ienv(int ispec)
 {
